@@ -51,6 +51,12 @@ def run(ctx, broken):
             sc = p.w(rng.fe() % RJ); p.mulgen(sc, ext_of(random_subgroup_point(rng))); tags.append("all-widgets")
         draws = [draw_hex(rng) for _ in range(14)]
         cs.append({"line": prove_line(srs, 1100, b"gadgets", draws, 3, p.src(), routes=True), "tags": tags})
+    # selectors taken from the built-in scalar dictionary of the compressed format (Hades round constants, MDS entries)
+    from props.c15 import circuits as c15_circuits
+    for i in range(1 if ctx.tier == "quick" else 6):
+        src = c15_circuits(rng, 7 + 7 * i)[6 + 7 * i]
+        draws = [draw_hex(rng) for _ in range(14)]
+        cs.append({"line": prove_line(srs, 200, b"dict", draws, 3, src, routes=True), "tags": ["dictionary-constants-circuit"]})
     r.run(cs)
     # property-level expectations on the implementation
     for c, in [(c,) for c in cs]:
@@ -58,7 +64,8 @@ def run(ctx, broken):
     st = r.report()
     st["rule"] = ("constraint counts 2^k+off for k=3..%d, off in -8..8 (padding 6 / blinding 6 / next-power-of-two interplay), "
                   "SRS degree exactly sufficient and one too small, public inputs on the first user row / last row / adjacent rows / "
-                  "none, random labels (0..64 bytes); gadget circuits. Per case the real compile+prove (scripted RNG) must give the "
+                  "none, random labels (0..64 bytes); gadget circuits (one with every widget), a circuit whose selectors are entries of the "
+                  "compressed format's built-in dictionary. Per case the real compile+prove (scripted RNG) must give the "
                   "byte-identical proof of the Lean specification prover, its own verifier and the Lean model verifier must accept, "
                   "keys compiled from the compressed description and keys decoded from bytes must be identical and prove/verify "
                   "identically." % kmax)
